@@ -538,7 +538,8 @@ def queryFeatures (t : Tables) (F : FeatIds) (inst : Inst) (ops : List Opnd) : E
   -- PCLMULQDQ vs VPCLMULQDQ
   let fs :=
     if fs.contains F.VPCLMULQDQ then
-      if ra.hasType tVec512 || has inst.options oEvex then rem fs [F.AVX, F.PCLMULQDQ]
+      -- `|| ra.highVec`: repaired code (fixes/C12-3.patch); xmm16–31 / ymm16–31 force the EVEX encoding
+      if ra.hasType tVec512 || has inst.options oEvex || ra.highVec then rem fs [F.AVX, F.PCLMULQDQ]
       else if ra.hasType tVec256 then rem fs [F.AVX512_F, F.AVX512_VL]
       else rem fs [F.AVX512_F, F.AVX512_VL, F.VPCLMULQDQ]
     else fs
